@@ -30,6 +30,12 @@ B = 'kronecker_factored_lattice_lib'
 
 
 def run(prog, res):
+  from ..rules import dtypes, validate
+  dtypes.selfcheck()
+  _cl = validate.call_closure(prog, [prog.function(q) for q in ('kronecker_factored_lattice_layer.KroneckerFactoredLattice.call',)],
+                              follow_init=False)
+  dtypes.check_functions(prog, res, [f for _, f in sorted(_cl.items())])
+  res.floor('D1', 3)
   build = prog.function(L + '.KroneckerFactoredLattice.build')
   kc = prog.cls(L + '.KroneckerFactoredLatticeConstraints')
   sc = prog.cls(L + '.ScaleConstraints')
